@@ -1,6 +1,7 @@
 package c12
 
 import (
+	"bytes"
 	"crypto/sha1"
 	"encoding/hex"
 	"encoding/json"
@@ -46,8 +47,11 @@ type Unit struct {
 
 	ffOut    []byte
 	ffErr    error
-	writes   []writeRec
-	skip     string // non-empty: unit not enumerated (reason)
+	writes   []writeRec // write calls of the fault-free run, writer without WriteString
+	writesSW []writeRec // ... writer with WriteString
+	skip     string     // non-empty: unit not enumerated (reason)
+	unstable bool       // the fault-free output is not reproducible even before any fault: not judged
+	long     bool       // long-value family: byte capacities are chosen around chunk boundaries
 	compileE string
 }
 
@@ -219,18 +223,55 @@ func (u *Unit) render(w io.Writer) (err error, panicked bool) {
 	return r.Execute(w, u.data), false
 }
 
-// faultFree runs the unit with the counting writer and the site tracker.
-// It sets soyhtml.VerifAt and therefore must not run concurrently.
+// faultFree runs the unit with the counting writer and the site tracker,
+// once per writer flavour (without / with a WriteString method), and twice
+// more to see that the output is reproducible. It runs before any fault has
+// been injected in this process, sets soyhtml.VerifAt and therefore must not
+// run concurrently.
 func (u *Unit) faultFree() {
-	tr := &siteTracker{escaped: escapedPrints(u.comp.Registry)}
-	w := &recWriter{site: tr.site}
-	soyhtml.VerifAt = tr.at
-	err, pan := u.render(w)
-	soyhtml.VerifAt = nil
+	one := func(sw bool) (*recWriter, error, bool) {
+		tr := &siteTracker{escaped: escapedPrints(u.comp.Registry)}
+		w := &recWriter{site: tr.site}
+		soyhtml.VerifAt = tr.at
+		var err error
+		var pan bool
+		if sw {
+			err, pan = u.render(swRec{w})
+		} else {
+			err, pan = u.render(w)
+		}
+		soyhtml.VerifAt = nil
+		return w, err, pan
+	}
+	w, err, pan := one(false)
 	u.ffOut, u.ffErr, u.writes = w.out, err, w.writes
 	if pan {
 		u.skip = "fault-free render panics: " + err.Error()
+		return
 	}
+	w2, err2, _ := one(true)
+	u.writesSW = w2.writes
+	w3 := &recWriter{}
+	err3, _ := u.render(w3)
+	same := func(out []byte, e error) bool { return bytes.Equal(out, u.ffOut) && (e == nil) == (u.ffErr == nil) }
+	if !same(w2.out, err2) || !same(w3.out, err3) || len(w3.writes) != len(u.writes) {
+		u.unstable = true
+	}
+}
+
+// healthy renders once more into an unfailing writer and reports whether the
+// result is still the fault-free output.
+func (u *Unit) healthy() (ok bool, out []byte, err error) {
+	w := &recWriter{}
+	err, _ = u.render(w)
+	return bytes.Equal(w.out, u.ffOut) && (err == nil) == (u.ffErr == nil), w.out, err
+}
+
+func (u *Unit) writesOf(sw bool) []writeRec {
+	if sw {
+		return u.writesSW
+	}
+	return u.writes
 }
 
 // bracketBundle is a message bundle that "translates" every plural-free
